@@ -437,6 +437,104 @@ def r_fullscan(prog, R):
     r.info["list_walks"] = n
 
 
+def r_nodata(prog, R):
+    r = R.rule("R-C18-NODATA", "a legacy parser never reports success with nothing to hand out: where the result pointer is stored under a successful status it is known to be non-NULL "
+               "(an answer section that holds records, but none of the parser's type -- a CNAME only -- gives the documented ARES_ENODATA, not ARES_SUCCESS with a NULL list)", floor=6,
+               analysis="disjunctive forward analysis over (status success/failure, result pointer NULL/set), refined at branches")
+    n = 0
+    for f in sorted(prog.funcs.values(), key=lambda x: x.key):
+        if not (f.file.startswith("src/lib/legacy/ares_parse_") and f.file.endswith("_reply.c")):
+            continue
+        outs = {p_["n"] for p_ in f.params if (p_.get("ty") or "").count("*") >= 2}
+        hand = []
+        for b, i, el in f.elements():
+            if el["k"] == "asg" and el["e"]["op"] == "=":
+                l = strip(el["e"]["l"])
+                rr = strip(el["e"].get("r"))
+                if l is not None and l.get("k") == "un" and l["op"] == "*" and is_var(strip(l["e"])) and strip(l["e"])["n"] in outs and is_var(rr) and rr.get("vk") == "local":
+                    hand.append((b, i, el, rr["n"]))
+        svars = [v["n"] for v in f.vars.values() if v["ty"] == "ares_status_t" and v.get("vk", "local") != "param"] if hasattr(f, "vars") else []
+        if not hand or not svars:
+            continue
+        sv = svars[0]
+        for hb, hi, hel, head in hand:
+            def transfer(st, blk, i, el, head=head, sv=sv):
+                s0, h0 = st
+                if el["k"] == "decl":
+                    for v in el["vars"]:
+                        if v["n"] == head and v.get("init") is not None:
+                            h0 = "N" if is_null(v["init"]) else "Y"
+                        if v["n"] == sv and v.get("init") is not None:
+                            nm = name_of_const(v["init"])
+                            s0 = "?" if nm is None else ("S" if nm == "ARES_SUCCESS" else "F")
+                elif el["k"] == "asg":
+                    l = strip(el["e"]["l"])
+                    if is_var(l, head) and el["e"]["op"] == "=":
+                        h0 = "N" if is_null(el["e"].get("r")) else "Y"
+                    if is_var(l, sv) and el["e"]["op"] == "=":
+                        nm = name_of_const(el["e"].get("r"))
+                        s0 = "?" if nm is None else ("S" if nm == "ARES_SUCCESS" else "F")
+                elif el["k"] == "call":
+                    for a in el["e"].get("args", []):
+                        a2 = strip(a)
+                        if a2 is not None and a2.get("k") == "un" and a2["op"] == "&" and is_var(strip(a2["e"]), head):
+                            h0 = "?"
+                return [(s0, h0)]
+
+            def refine(st, cond, pol, blk, head=head, sv=sv):
+                s0, h0 = st
+                for c, p in atoms(cond, pol):
+                    op, l, rr = norm_cmp(c, p)
+                    if is_var(strip(l), sv) and rr is not None and name_of_const(rr) is not None and op in ("==", "!="):
+                        want_s = (name_of_const(rr) == "ARES_SUCCESS") == (op == "==")
+                        if name_of_const(rr) != "ARES_SUCCESS" and op == "!=":
+                            continue      # != some failure code: nothing learnt
+                        if name_of_const(rr) != "ARES_SUCCESS" and op == "==":
+                            want_s = False
+                        if want_s:
+                            if s0 == "F":
+                                return None
+                            s0 = "S"
+                        else:
+                            if s0 == "S":
+                                return None
+                            s0 = "F"
+                    if is_var(strip(l), head):
+                        isnull = None
+                        if op == "truth":
+                            isnull = False
+                        elif op == "false":
+                            isnull = True
+                        elif op in ("==", "!=") and rr is not None and is_null(rr):
+                            isnull = (op == "==")
+                        if isnull is True:
+                            if h0 == "Y":
+                                return None
+                            h0 = "N"
+                        elif isnull is False:
+                            if h0 == "N":
+                                return None
+                            h0 = "Y"
+                return (s0, h0)
+            try:
+                at = forward_states(f, ("?", "?"), transfer, refine)
+            except AnalysisBroken as e:
+                r.broke("%s: %s" % (f.name, e))
+                continue
+            n += 1
+            sts = at.get((hb.id, hi), set())
+            k = "fn=%s result '%s' handed out non-NULL on success" % (f.name, head)
+            bad = [st for st in sts if st[0] in ("S", "?") and st[1] in ("N", "?")]
+            if not sts:
+                r.broke("%s: hand-out store not reached by the analysis" % f.name)
+            elif bad:
+                r.viol(k, f.name, f.loc(hel), "%s can reach '%s' with a successful status while '%s' is still NULL: an answer section that holds records but none of this parser's type (for instance only a CNAME) "
+                       "is reported as ARES_SUCCESS with a NULL result instead of the documented ARES_ENODATA; callers that walk the list after a success dereference NULL" % (f.name, hel.get("t", ""), head))
+            else:
+                r.ok(k, f.loc(hel))
+    r.info["parsers"] = n
+
+
 def run(prog, R, tier):
     R.assume("value equality between the legacy structs and the record API getters is not decided here")
     r_cap(prog, R)
@@ -444,6 +542,7 @@ def run(prog, R, tier):
     r_free(prog, R)
     r_keys(prog, R)
     r_fullscan(prog, R)
+    r_nodata(prog, R)
     # the hostent arrays the ns/ptr/a/aaaa parsers hand out: terminator slot reserved, filled without gaps (answer order, complete release)
     termrules.term_rule(prog, R, "R-C18-TERM", floor=4)
     files = {f.file for f in prog.funcs.values() if f.file.startswith("src/lib/legacy/")} | {"src/lib/ares_addrinfo2hostent.c", "src/lib/ares_data.c"}
